@@ -102,3 +102,21 @@ Proof.
   intros n t a ob vt. apply (isar_limited has_name numof_name len_name u32 n t a ob None vt). intros s H. discriminate.
 Qed.
 Print Assumptions C17_isar_members_are_text_forms.
+
+(* rename (after fix 8cfbd78): the renamed member carries the new name, every array counted by the old name is
+   counted by the new one, and nothing else changes *)
+Theorem C17_rename_keeps_counters_attached : forall ms old new i m,
+  find_member ms old O = Some (i, m) ->
+  exists ms', apply_action ms (ARename old new) = POk ms' /\ length ms' = length ms /\
+    (forall j mj', nth_error ms' j = Some mj' ->
+       exists mj, nth_error ms j = Some mj /\
+         m_name mj' = (if Nat.eqb j i then new else m_name mj) /\
+         m_bound mj' = (match m_bound mj with Some b => Some (if Nat.eqb b old then new else b) | None => None end) /\
+         m_type mj' = m_type mj /\ m_size mj' = m_size mj /\ m_greedy mj' = m_greedy mj /\ m_opt mj' = m_opt mj).
+Proof. exact patch_rename. Qed.
+Print Assumptions C17_rename_keeps_counters_attached.
+
+Example C17_rename_example :
+  apply_actions [plain_mem 1 100; text_member (DBound 7 2 1)] [ARename 1 9; AStatic 2 3; ALimited 2 9]
+  = POk [plain_mem 9 100; text_member (DLimitedBy 7 2 3 9)].
+Proof. vm_compute. reflexivity. Qed.
